@@ -75,7 +75,9 @@ Ltac align_head :=
         tryif constr_eq A B then fail else replace B with A by fin end
     end
   end.
-Ltac kern_eq := do 8 (try align_head); fin.
+Ltac kern_eq0 := do 8 (try align_head); fin.
+(** also when the two terms of a difference under Rabs were written in the other order *)
+Ltac kern_eq := first [ kern_eq0 | rewrite Rabs_minus_sym; kern_eq0 ].
 
 (* ------------------------------------------------------------------------- *)
 (** * Basic list facts *)
